@@ -30,22 +30,38 @@ def main():
     claimed = [c["property_id"] for c in manifest["checks"]]
     props = args.props.split(",") if args.props else claimed
     bdir = os.path.join(VERIF, "benign")
-    patches = sorted(f for f in os.listdir(bdir) if f.endswith(".patch"))
+    sdir = os.path.join(VERIF, "benign_seeded")
+    # own patches (benign/*.patch) and refactorings written by independent sub-agents
+    # (benign_seeded/<id>-r<i>/patch.diff with notes.md and check.py)
+    items = [(f, os.path.join(bdir, f), None) for f in sorted(os.listdir(bdir)) if f.endswith(".patch")]
+    if os.path.isdir(sdir):
+        for f in sorted(os.listdir(sdir)):
+            pd = os.path.join(sdir, f, "patch.diff")
+            if os.path.exists(pd):
+                items.append((f, pd, os.path.join(sdir, f, "check.py")))
     if args.names:
-        patches = [p for p in patches if any(p.startswith(n) for n in args.names)]
+        items = [it for it in items if any(it[0].startswith(n) for n in args.names)]
+    patches = [it[0] for it in items]
+    paths = dict((it[0], it[1]) for it in items)
+    demos = dict((it[0], it[2]) for it in items)
     bad = 0
     for p in patches:
         d = tempfile.mkdtemp(prefix="lena_benign_")
         try:
             shutil.copytree(os.path.join(REPO, "lena"), os.path.join(d, "lena"),
                             ignore=shutil.ignore_patterns("__pycache__"))
-            r = subprocess.run(["patch", "-p1", "-s", "-d", d, "-i", os.path.join(bdir, p)],
+            r = subprocess.run(["patch", "-p1", "-s", "-d", d, "-i", paths[p]],
                                capture_output=True, text=True)
             if r.returncode:
                 print("%-48s PATCH DOES NOT APPLY (run selftest/make_benign.py): %s" % (p, (r.stdout + r.stderr)[:200]))
                 bad += 1
                 continue
             row = {}
+            if demos.get(p) and os.path.exists(demos[p]):
+                env = dict(os.environ, PYTHONPATH=d, PYTHONDONTWRITEBYTECODE="1")
+                t = subprocess.run([sys.executable, demos[p]], cwd=d, env=env, capture_output=True, text=True,
+                                   timeout=600)
+                row["own_check"] = "passes" if t.returncode == 0 else "FAILS rc=%d" % t.returncode
             if args.suite:
                 shutil.copytree(os.path.join(REPO, "tests"), os.path.join(d, "tests"),
                                 ignore=shutil.ignore_patterns("__pycache__"))
@@ -74,7 +90,8 @@ def main():
                     bad += 1
             print("%-48s %s" % (p, "silent on %d checks" % len(props) if not any(
                 str(v).startswith("ALARM") for v in row.values()) else json.dumps(row)) +
-                (" suite: %s" % row["suite"] if "suite" in row else ""))
+                (" suite: %s" % row["suite"] if "suite" in row else "") +
+                (" own check: %s" % row["own_check"] if "own_check" in row else ""))
             sys.stdout.flush()
         finally:
             shutil.rmtree(d, ignore_errors=True)
